@@ -154,6 +154,23 @@ void prop_sketch(const Case& cs) {
       uint64_t n = op.uarg(0) % 200; vf::Rng r(op.uarg(1));
       for (uint64_t i = 0; i < n; ++i) sk_feed(c, vf::Item{vf::T_I64, static_cast<uint64_t>(pool[r.below(pool.size())].first)});
       vf::label("high-column-keys");
+    } else if (op.name == "cluster") {
+      // items chosen by their row (reference hash): n items in the lowest k >> shift rows, then a few in the highest k/16 rows - the
+      // occupied rows are clustered, so the row gaps of the pair coding are far larger than with uniformly hashed input
+      const uint32_t k = 1u << lg_k, lim = std::max<uint32_t>(1, k >> (2 + op.uarg(1) % 4)), top = k - std::max<uint32_t>(1, k >> 4);
+      const uint64_t n = op.uarg(0) % 600, salt = op.uarg(2);
+      uint64_t ctr = 0, fed = 0, tops = 1 + (salt & 1);
+      while (fed < n && ctr < 200000) {
+        vf::Item it{vf::T_I64, vf::mix64(salt * 1000003ull + ctr++) | 4096};
+        Pair p; if (!ref_pair(it, seed, p)) continue;
+        if ((p.row26 & (k - 1)) < lim) { sk_feed(c, it); ++fed; }
+      }
+      while (tops > 0 && ctr < 400000) {
+        vf::Item it{vf::T_I64, vf::mix64(salt * 1000003ull + ctr++) | 4096};
+        Pair p; if (!ref_pair(it, seed, p)) continue;
+        if ((p.row26 & (k - 1)) >= top) { sk_feed(c, it); --tops; }
+      }
+      vf::label("clustered-rows");
     } else if (op.name == "dups") {
       uint64_t n = op.uarg(0) % 3000; if (c.items.empty()) continue;
       vf::Rng r(op.uarg(1));
@@ -341,6 +358,7 @@ rc::Gen<Case> gen_sketch() {
       {4, op1("bulk", rc::gen::withSize([](int s) { return range(0, 50 + 400 * s); }))},
       {2, op1("bulk", range(0, 60))},
       {2, op2("pool", range(1, 150), range(0, 1 << 20))},
+      {2, op3("cluster", range(1, 599), range(0, 3), range(0, 1 << 20))},
       {1, op2("dups", range(1, 1000), range(0, 1 << 20))},
       {2, op1("serde", range(0, 1))},
       {1, op0("copy")},
@@ -358,7 +376,7 @@ rc::Gen<Case> gen_deep() {
 // large lg_k (13..26): sparse/hybrid flavors only at the top end
 rc::Gen<Case> gen_large() {
   using namespace vf;
-  auto opg = choose({{3, op1("bulk", range(0, 200000))}, {1, op2("upd", range(0, T_NTYPES - 1), raw_gen())}, {1, op1("serde", range(0, 1))}});
+  auto opg = choose({{3, op1("bulk", range(0, 200000))}, {1, op2("upd", range(0, T_NTYPES - 1), raw_gen())}, {1, op1("serde", range(0, 1))}, {1, op3("cluster", range(1, 599), range(0, 3), range(0, 1 << 20))}});
   return make_case({{"lg_k", range(13, 26)}, {"seed", pick({0, 0, 9})}}, oplist(opg, 1, 0.04));
 }
 rc::Gen<Case> gen_union() {
